@@ -9,7 +9,7 @@ use crate::{Error, Result};
 use arrow::compute::filter_record_batch;
 use arrow_array::cast::AsArray;
 use arrow_array::{Array, BooleanArray, RecordBatch};
-use sqlparser::ast::{BinaryOperator, Expr, SetExpr, Statement, Value};
+use sqlparser::ast::{BinaryOperator, Expr, SetExpr, Statement, UnaryOperator, Value};
 use sqlparser::dialect::GenericDialect;
 use sqlparser::parser::Parser;
 use std::sync::Arc;
@@ -373,6 +373,24 @@ impl QueryFilter {
                 Value::Null => Some(PredicateValue::Null),
                 _ => None,
             },
+            // A signed number arrives as a unary operator applied to the unsigned literal
+            Expr::UnaryOp {
+                op: UnaryOperator::Minus,
+                expr,
+            } => match Self::parse_sql_value(expr)? {
+                PredicateValue::Int64(i) => i.checked_neg().map(PredicateValue::Int64),
+                PredicateValue::Float64(f) => Some(PredicateValue::Float64(-f)),
+                _ => None,
+            },
+            Expr::UnaryOp {
+                op: UnaryOperator::Plus,
+                expr,
+            } => match Self::parse_sql_value(expr)? {
+                PredicateValue::Int64(i) => Some(PredicateValue::Int64(i)),
+                PredicateValue::Float64(f) => Some(PredicateValue::Float64(f)),
+                _ => None,
+            },
+            Expr::Nested(inner) => Self::parse_sql_value(inner),
             _ => None,
         }
     }
